@@ -171,42 +171,7 @@ func checkC08(w *World, r *Run) {
 	checkC08GC(w, r, ruleGC)
 
 	// ---- 3. def-use of deleteUnreferencedParts
-	del := w.SSAFunc(relMP, "metadataPartStorage.deleteUnreferencedParts")
-	if del == nil {
-		r.Anchor(ruleDefUse, "metadataPartStorage.deleteUnreferencedParts")
-	} else {
-		for _, ci := range w.callers[del] {
-			c, isCall := ci.(ssa.CallInstruction)
-			if !isCall {
-				continue
-			}
-			args := c.Common().Args
-			arg := args[len(args)-1]
-			cons := funcName(topFunc(c.Parent())) + " → deleteUnreferencedParts"
-			name, base := fieldLoadName(arg)
-			ok := false
-			detail := ""
-			if name == "UnreferencedParts" {
-				// base: pointer result of a MetadataStore call (possibly through a local)
-				srcs := 0
-				bad := 0
-				backSlice(base, false, func(x ssa.Value) {
-					if cc, isCall := x.(*ssa.Call); isCall {
-						if mc, _ := mdStoreInvoke(cc); mc != nil {
-							srcs++
-						} else {
-							bad++
-						}
-					}
-				})
-				ok = srcs > 0 && bad == 0
-				detail = "not the result of a metadata-store call"
-			} else {
-				detail = "argument is not an UnreferencedParts field"
-			}
-			r.Check(ok, ruleDefUse, cons, posOf(c), "UnreferencedParts of a metadata-store result", detail+": parts that are still referenced could be deleted")
-		}
-	}
+	checkUnreferencedDefUse(w, r, ruleDefUse, "")
 
 	checkC08Reuse(w, r, ruleReuse)
 	checkC08SQL(w, r, ruleSQL)
@@ -1121,4 +1086,50 @@ func checkC08Book(w *World, r *Run, rule string) {
 			r.Check(ok, rule, h+" returns removePartEntities' verdict", hf.Pos(), "funnels through removePartEntities", "part rows are reported unreferenced without consulting the registry")
 		}
 	}
+}
+
+// checkUnreferencedDefUse: the slice handed to deleteUnreferencedParts is the
+// UnreferencedParts field of a metadata-store result; restricted to callers whose name ends
+// in `only` when that is not empty.
+func checkUnreferencedDefUse(w *World, r *Run, ruleDefUse string, only string) {
+	del := w.SSAFunc(relMP, "metadataPartStorage.deleteUnreferencedParts")
+	if del == nil {
+		r.Anchor(ruleDefUse, "metadataPartStorage.deleteUnreferencedParts")
+	} else {
+		for _, ci := range w.callers[del] {
+			c, isCall := ci.(ssa.CallInstruction)
+			if !isCall {
+				continue
+			}
+			args := c.Common().Args
+			arg := args[len(args)-1]
+			cons := funcName(topFunc(c.Parent())) + " → deleteUnreferencedParts"
+			if only != "" && !strings.HasSuffix(funcName(topFunc(c.Parent())), only) {
+				continue
+			}
+			name, base := fieldLoadName(arg)
+			ok := false
+			detail := ""
+			if name == "UnreferencedParts" {
+				// base: pointer result of a MetadataStore call (possibly through a local)
+				srcs := 0
+				bad := 0
+				backSlice(base, false, func(x ssa.Value) {
+					if cc, isCall := x.(*ssa.Call); isCall {
+						if mc, _ := mdStoreInvoke(cc); mc != nil {
+							srcs++
+						} else {
+							bad++
+						}
+					}
+				})
+				ok = srcs > 0 && bad == 0
+				detail = "not the result of a metadata-store call"
+			} else {
+				detail = "argument is not an UnreferencedParts field"
+			}
+			r.Check(ok, ruleDefUse, cons, posOf(c), "UnreferencedParts of a metadata-store result", detail+": parts that are still referenced could be deleted")
+		}
+	}
+
 }
